@@ -76,14 +76,14 @@ theorem blockC_bounds (h : Hdr) (hw : h.WF) (hs off : Nat) (hhs : hs < 2 ^ 16) (
     exact hw.doubles.2 d hd
   · rcases hf with hf | hf
     · split at hf
-      · simp at hf; subst hf; exact hw.wave.1
+      · simp at hf; subst hf; exact hw.wave
       · cases hf
     · split at hf
       · rename_i h4
         simp only [List.mem_append, List.mem_cons, List.mem_map, List.not_mem_nil, or_false] at hf
         rcases hf with (hf | hf | hf) | ⟨r, hr, hf⟩
         · subst hf; exact hw.evlr.1
-        · subst hf; exact hw.evlr.2.1
+        · subst hf; exact hw.evlr.2
         · subst hf; simp only
           have : ¬ h.vMinor ≤ 3 := by omega
           simp [this] at hc; omega
@@ -134,7 +134,7 @@ theorem parse_encoded (h : Hdr) (hw : h.WF) (vb : Bytes)
         (h.guid ++ (encInts [(1, h.vMajor), (1, h.vMinor)] ++ (writeString h.systemId 32 ++
         (writeString h.software 32 ++ (encInts (blockC h (base h.vMinor + h.extraHeader.length)
           (base h.vMinor + h.extraHeader.length + vb.length + h.extraVlr.length)) ++
-        (h.extraHeader ++ (vb ++ h.extraVlr))))))))) = .ok h := by
+        (h.extraHeader ++ (vb ++ h.extraVlr))))))))) = .ok (canon h) := by
   generalize hHS : base h.vMinor + h.extraHeader.length = hs at *
   generalize hOFF : hs + vb.length + h.extraVlr.length = off at *
   have eA : ∀ r, decInts [2, 2] (encInts [(2, h.fileSourceId), (2, h.globalEncoding)] ++ r) =
@@ -203,15 +203,12 @@ theorem parse_encoded (h : Hdr) (hw : h.WF) (vb : Bytes)
   obtain ⟨d0, d1, d2, d3, d4, d5, d6, d7, d8, d9, d10, d11, hd⟩ := list12 _ hw.doubles.1
   have hm := hw.minor
   have hm' : h.vMinor = 1 ∨ h.vMinor = 2 ∨ h.vMinor = 3 ∨ h.vMinor = 4 := by omega
-  have hwave := hw.wave.2
-  have hevlr := hw.evlr.2.2
-  have hleg := hw.retLegacy
   obtain ⟨fsid, ge, guid, vMajor, vMinor, systemId, software, doy, year, fmtByte, recLen, count, byReturn,
     doubles, waveformStart, evlrStart, nEvlrs, extraHeader, vlrs, extraVlr⟩ := h
-  simp only at hr hd hm' hwave hevlr hleg ⊢
+  simp only at hr hd hm' ⊢
   subst hr hd
   rcases hm' with hmm | hmm | hmm | hmm <;> subst hmm <;>
-    simp [blockC, legacyInts, tailInts] at hwave hevlr hleg ⊢ <;> simp_all
+    simp [blockC, legacyInts, tailInts, canon]
 
 
 theorem encInts_append (a b : List (Nat × Nat)) : encInts (a ++ b) = encInts a ++ encInts b := by
@@ -333,7 +330,7 @@ theorem parse_encForm (h : Hdr) (hw : h.WF) (vb : Bytes)
     (hdec : ∀ rest, decodeVlrs false h.vlrs.length (vb ++ rest) = (h.vlrs, rest))
     (hhs : base h.vMinor + h.extraHeader.length < 2 ^ 16)
     (hoff : base h.vMinor + h.extraHeader.length + vb.length + h.extraVlr.length < 2 ^ 32) :
-    parseHdr (encForm h vb) = .ok h := parse_encoded h hw vb hdec hhs hoff
+    parseHdr (encForm h vb) = .ok (canon h) := parse_encoded h hw vb hdec hhs hoff
 
 theorem prefetch_encForm (h : Hdr) (hw : h.WF) (vb rest : Bytes)
     (hoff : base h.vMinor + h.extraHeader.length + vb.length + h.extraVlr.length < 2 ^ 32) :
